@@ -733,11 +733,51 @@ func checkTreeTop(p *core.Program, r *core.Report, tm *treeModel, eng *tf.Engine
 				}
 			}
 		}
+		// the proof may be taken in a read-only method of the tree that Update calls after replacing the root
+		// (Update = root.withValue ≺ return tree.Proof(index))
+		var helper *ssa.Function
+		var helperCall *ssa.Call
+		if proofCall == nil && rootStore != nil {
+			for _, b := range upd.Blocks {
+				for _, in := range b.Instrs {
+					c, ok := in.(*ssa.Call)
+					if !ok || !instrBefore(rootStore, c) {
+						continue
+					}
+					h := c.Common().StaticCallee()
+					if h == nil || h.Pkg != sp || h.Signature.Recv() == nil || len(c.Common().Args) == 0 || c.Common().Args[0] != ssa.Value(upd.Params[0]) || len(h.Blocks) == 0 {
+						continue
+					}
+					for _, hb := range h.Blocks {
+						for _, hi := range hb.Instrs {
+							switch x := hi.(type) {
+							case *ssa.Call:
+								if x.Common().IsInvoke() && x.Common().Method.Name() == tm.prf["full"].Name() {
+									proofCall, helper, helperCall = x, h, c
+								}
+								if x.Common().IsInvoke() && x.Common().Method.Name() == tm.dep["full"].Name() {
+									depthCall = x
+								}
+							case *ssa.MakeSlice:
+								mk = x
+							}
+						}
+					}
+				}
+			}
+		}
+		_ = helperCall
 		var probs []string
 		loadAfter := func(c *ssa.Call) bool {
 			ld, ok := c.Common().Value.(*ssa.UnOp)
 			if !ok || rootStore == nil {
 				return false
+			}
+			if helper != nil {
+				// inside the helper, which runs after the store: the load must be of the same field of the helper's receiver
+				fa, ok1 := ld.X.(*ssa.FieldAddr)
+				fb, ok2 := rootStore.Addr.(*ssa.FieldAddr)
+				return ok1 && ok2 && fa.Field == fb.Field && fa.X == ssa.Value(helper.Params[0])
 			}
 			return sameFieldAddr(ld.X, rootStore.Addr) && instrBefore(rootStore, ld)
 		}
@@ -750,7 +790,28 @@ func checkTreeTop(p *core.Program, r *core.Report, tm *treeModel, eng *tf.Engine
 			if !loadAfter(proofCall) {
 				probs = append(probs, "the proof is taken from the root as it was before the update (it authenticates the old value, not the new one, against the new root)")
 			}
-			if depthCall == nil || !loadAfter(depthCall) || mk == nil || mk.Len != ssa.Value(depthCall) {
+			depthOK := depthCall != nil && loadAfter(depthCall) && mk != nil && mk.Len == ssa.Value(depthCall)
+			if !depthOK && mk != nil && rootStore != nil {
+				// make([]T, tree.Depth()) with Depth() = tree.root.depth(): an accessor of the same receiver that returns the
+				// depth of the root field
+				if dc, ok := mk.Len.(*ssa.Call); ok {
+					recvOK := len(dc.Common().Args) == 1 && ((helper != nil && dc.Common().Args[0] == ssa.Value(helper.Params[0])) || dc.Common().Args[0] == ssa.Value(upd.Params[0]))
+					if acc := dc.Common().StaticCallee(); acc != nil && acc.Pkg == sp && recvOK && len(acc.Blocks) == 1 && (helper != nil || instrBefore(rootStore, dc)) {
+						if ret, ok := acc.Blocks[0].Instrs[len(acc.Blocks[0].Instrs)-1].(*ssa.Return); ok && len(ret.Results) == 1 {
+							if ic, ok := ret.Results[0].(*ssa.Call); ok && ic.Common().IsInvoke() && ic.Common().Method.Name() == tm.dep["full"].Name() {
+								if ld, ok := ic.Common().Value.(*ssa.UnOp); ok {
+									fa, ok1 := ld.X.(*ssa.FieldAddr)
+									fb, ok2 := rootStore.Addr.(*ssa.FieldAddr)
+									if ok1 && ok2 && fa.Field == fb.Field && fa.X == ssa.Value(acc.Params[0]) {
+										depthOK = true
+									}
+								}
+							}
+						}
+					}
+				}
+			}
+			if !depthOK {
 				probs = append(probs, "the proof slice is not allocated with the (new) root's depth")
 			}
 			if mk != nil && proofCall != nil && len(proofCall.Common().Args) == 2 {
